@@ -13,9 +13,10 @@ Definition enc_members (l : list (name * list Z)) : list Z :=
 
 (* Fragment.prepare on a design whose fragment tree is `f` with user ports `uports`
    (explicit name or None, conn.name): [1; created domains (order of the missing_domain calls);
-   final port names in order] (`ioports`: names of the IO ports used, in first-use order) | [-1; 1] AssertionError | [-1; 2] TypeError *)
-Definition k_dom (f : frag) (uports : list (option name * name)) (ioports : list name) : list Z :=
+   final port names in order] (`top`: the submodule tree, from which the IO ports used are listed in first-use order) | [-1; 1] AssertionError | [-1; 2] TypeError *)
+Definition k_dom (f : frag) (uports : list (option name * name)) (top : kid) : list Z :=
   let ds := create_missing_sorted (missing_set f) in
+  let ioports := io_kid top in
   (* prepare: user ports, then clk/rst of the created domains; Design._add_io_ports appends the IO ports *)
   match assign_port_names (uports ++ map (fun n => (None, n)) (new_ports ds) ++ map (fun n => (None, n)) ioports) with
   | Ok l => 1 :: enc_names ds ++ enc_names l
@@ -44,20 +45,29 @@ Definition k_names (tports : list tport) (sigs ios : list (Z * name)) (subs : li
   | None => [-1; 1]
   end.
 
-(* a BuildPlan built by add_file calls: digest input, archive members, sorted listing after extract *)
-Fixpoint add_files (fs : files) (adds : list (name * content)) : option files :=
+(* a BuildPlan built by add_file calls, extracted into a directory that already holds `pre`:
+   [1; digest input; archive members (name, bytes, date_time = 1980-01-01 00:00:00, compress_type = stored);
+    sorted listing after extract() | -1; 1 (extract asserts on a ".." component)]
+   | [-1; 1] duplicate file name (assert) | [-1; 3] absolute file name (ValueError) *)
+Fixpoint add_files (fs : files) (adds : list (name * content)) : fres :=
   match adds with
-  | [] => Some fs
-  | (k, c) :: r => match add_file fs k c with Some fs' => add_files fs' r | None => None end
+  | [] => FOk fs
+  | (k, c) :: r => match add_file_checked fs k c with FOk fs' => add_files fs' r | e => e end
   end.
 Definition listing (d : dir) : list (name * list Z) :=
   map (fun k => (k, match find (fun e => name_eqb k (fst e)) d with Some e => snd e | None => [] end))
       (sort (map fst d)).
-Definition k_plan (adds : list (name * content)) (script : name) : list Z :=
+Definition enc_archive (l : list (name * list Z)) : list Z :=
+  zlen l :: concat (map (fun kv => enc_name (fst kv) ++ enc_name (snd kv) ++ [1980; 1; 1; 0; 0; 0; 0]) l).
+Definition k_plan (pre : dir) (adds : list (name * content)) (script : name) : list Z :=
   match add_files [] adds with
-  | None => [-1; 1]
-  | Some fs => 1 :: enc_name (digest_input fs script) ++ enc_members (archive_members fs)
-                 ++ enc_members (listing (extract [] fs))
+  | FAssert => [-1; 1]
+  | FValue => [-1; 3]
+  | FOk fs => 1 :: enc_name (digest_input fs script) ++ enc_archive (archive_members fs)
+                ++ match extract_checked pre fs with
+                   | Some d => enc_members (listing d)
+                   | None => [-1; 1]
+                   end
   end.
 
 (* reset *)
@@ -81,3 +91,20 @@ Definition enc_engine (e : engine) : list Z :=
   ++ [e_delta e; zlen (e_active e); b2l (e_running e)].
 (* [1 (= the state before reset was reproduced)] ++ state after reset() *)
 Definition k_reset (e : engine) : list Z := 1 :: enc_engine (reset e).
+
+(* the constructor state of a new simulator of the same design (its first `n` slots: a simulator that has not
+   run yet has not allocated the slots of signals only a testbench touches), every field of Repro.observe plus
+   _delta_cycles; the slots' waker counts are not part of it *)
+Definition enc_slot_nw (s : slot) : list Z :=
+  match s with
+  | SSig g => [0; sg_init g; sg_curr g; sg_next g]
+  | SMem m => [1] ++ enc_name (mm_init m) ++ enc_name (mm_data m)
+              ++ [zlen (mm_wq m)] ++ concat (map (fun p => [fst p; snd p]) (mm_wq m))
+  end.
+Definition k_fresh (n : Z) (e : engine) : list Z :=
+  let f := fresh e in
+  [1; Z.min n (zlen (e_slots f))] ++ concat (map enc_slot_nw (firstn (Z.to_nat n) (e_slots f)))
+  ++ enc_name (e_pending f) ++ [e_now f] ++ enc_name (map snd (e_wakers f))
+  ++ [zlen (e_procs f)] ++ concat (map enc_proc (e_procs f))
+  ++ [zlen (e_tbs f)] ++ concat (map enc_proc (e_tbs f))
+  ++ [e_delta f; zlen (e_active f); b2l (e_running f)].
